@@ -210,6 +210,25 @@ def run_case(case, sb):
             mem = [list(ln) for ln in (o["unmatched"] or [])]
             if got != mem or mem != exp:
                 problems.append({"member": name, "unmatched.csv": got, "in_memory_unmatched": mem, "standalone_unmatched": exp})
+        meta = files["meta.json"]
+        rt = meta.get("runtime_data") or {}
+        mprob = {}
+        if meta.get("identity") != name:
+            mprob["identity"] = meta.get("identity")
+        for key, want in (("count_matches", o["match_count"]), ("count_scans", o["scan_count"]), ("valid", o["is_valid"])):
+            got = rt.get(key)
+            if isinstance(got, dict):   # keyed by identity when not local
+                got = list(got.values())[0] if got else None
+            if got != want:
+                mprob[key] = {"meta.json": rt.get(key), "in_memory": want}
+        try:
+            want_md = json.loads(json.dumps(out["_results"][i].csvpath.metadata))
+            if meta.get("metadata") != want_md:
+                mprob["metadata"] = {"meta.json": meta.get("metadata"), "in_memory": want_md}
+        except (TypeError, ValueError):
+            pass
+        if mprob:
+            problems.append({"member": name, "meta.json": mprob})
         man = files["manifest.json"]
         if man.get("valid") != o["is_valid"] or o["is_valid"] != r["is_valid"]:
             problems.append({"member": name, "manifest.valid": man.get("valid"), "in_memory": o["is_valid"], "standalone": r["is_valid"]})
